@@ -160,11 +160,16 @@ def check_field_semantics(ctx, rid_round="R3", rid_prec="R4", rid_defaults="R5")
             if not (isinstance(last.get("atom_line"), tuple) and last["atom_line"][0] == "<function>" and last["atom_line"][1].module is wi.module):
                 return "without a user atom_line the base does not get the module's default atom-line function"
             marker = ("<function>", "user")
-            fields_of(short, wi, mk(), {}, extra_pos=("MY {title}", marker))
-            if last.get("template") != "MY {title}":
-                return f"a user template is replaced by {str(last.get('template'))[:40]!r}"
-            if last.get("atom_line") is not marker:
-                return "a user atom_line callback is replaced"
+            for tmpl, al_ in (("MY {title}", marker), (None, marker), ("MY {title}", None)):
+                fields_of(short, wi, mk(), {}, extra_pos=(tmpl, al_))
+                if tmpl is not None and last.get("template") != tmpl:
+                    return f"a user template is replaced by {str(last.get('template'))[:40]!r}"
+                if al_ is not None and last.get("atom_line") is not marker:
+                    return "a user atom_line callback is dropped" + (" when no template is given" if tmpl is None else "")
+                if tmpl is None and not (isinstance(last.get("template"), str) and "{" in last.get("template")):
+                    return "without a user template (but with a user atom_line) the default template is not used"
+                if al_ is None and not (isinstance(last.get("atom_line"), tuple) and last["atom_line"][0] == "<function>" and last["atom_line"] is not marker):
+                    return "without a user atom_line (but with a user template) the default atom-line function is not used"
             return None
         run(rid_prec, f"{short}: user template and atom-line callback are used as given; the module defaults only when they are None", f)
     ctx.floor(rid_prec, nprog, 2, "input writers")
